@@ -4,7 +4,7 @@
 (*                                                                            *)
 (* ConstInitN quantifies over EVERY subset of N names (0..N Wait calls), any  *)
 (* natural MaxCounter and Budget, both values of HelperLocked; the integer    *)
-(* variables are unbounded.  For N in {3, 5, 7}:                              *)
+(* variables are unbounded.  For N in {3, 5, 10}:                              *)
 (*   apalache-mc check --cinit=ConstInitN --init=Init --next=NextAny          *)
 (*        --inv=IndInv --length=0 WaitGroupInd_apa.tla                        *)
 (*   apalache-mc check --cinit=ConstInitN --init=IndInitN --next=NextAny      *)
@@ -19,7 +19,7 @@ ConstInit(names) == /\ Waiters \in SUBSET names
 
 ConstInit3 == ConstInit({"w1", "w2", "w3"})
 ConstInit5 == ConstInit({"w1", "w2", "w3", "w4", "w5"})
-ConstInit7 == ConstInit({"w1", "w2", "w3", "w4", "w5", "w6", "w7"})
+ConstInit10 == ConstInit({"w1", "w2", "w3", "w4", "w5", "w6", "w7", "w8", "w9", "w10"})
 
 \* any state satisfying IndInv.  Gen(N) yields an arbitrary sequence of at most N entries; the
 \* conjunct NoDup(waitq) of IndInv makes that exhaustive for |Waiters| <= N.
@@ -37,5 +37,5 @@ IndInitQ(q) ==
 
 IndInit3 == IndInitQ(Gen(3))
 IndInit5 == IndInitQ(Gen(5))
-IndInit7 == IndInitQ(Gen(7))
+IndInit10 == IndInitQ(Gen(10))
 =============================================================================
